@@ -124,6 +124,8 @@ def collect(ctx: Ctx, profile: str, quick: bool):
                     continue
                 try:
                     js = json.dumps(w)
+                    if json.loads(js) != w:      # non-str keys: the JSON text does not stand for this value
+                        continue
                 except (TypeError, ValueError):
                     continue
                 byvalue, _ = vs.out_of(typelib.unmarshal, ann, w)
